@@ -52,6 +52,14 @@ CHECKS.update({
          'Generated stacks (ints at the 64/257-bit form boundaries, cells, partly consumed slices, builders, nested tuples of length 0,1,2,3+, all ten continuation kinds with control data) are serialised twice; an independent decoder working only on bits/refs must read the VmStack schema values, the library must read back equal values, both cells must be equal and every caller-held value must equal its pre-call snapshot.',
          'Trusts harness/ref/refvmstack.py (self-tested on hand-assembled encodings). vm_stk_nan not covered.', '§6 C17'),
 })
+CHECKS.update({
+ 'C12': ('exhaustive enumeration (0..5 validators x weight patterns x every signer subset x 9 adversarial list shapes) + Hypothesis generation with weights engineered around the 2/3 threshold; oracle by construction of the case',
+         'The harness creates every key and therefore knows what each list entry is (valid by member i, a second distinct valid signature by the same member made with another nonce, bit-flipped, valid for another block id, by a non-member, impersonation) and decides accept/reject from the statement alone: non-empty set, all entries valid members, signers pairwise distinct, 3*signed > 2*total. The library must return exactly in the accept cases and raise in all others; weights up to 2^62 and margins 3*signed-2*total in -3..3 are constructed, not sampled.',
+         'Trusts PyNaCl Ed25519 signing, an RFC 8032 signer with a chosen nonce (self-checked against libsodium verification), hashlib, and the TL constructor ids computed by harness/ref/reftl.py from the bundled schema text.', '§6 C12'),
+ 'C14': ('enumeration of EVERY supported bundled constructor (k values each) and every flag combination + Hypothesis values; differential vs independent TL schema parser/encoder/decoder (reftl); round-trip; block-id helper laws',
+         'An independent parser of the bundled .tl text computes constructor ids and field lists; for every supported constructor of lite_api.tl and ton_api.tl generated well-typed values (all flag combinations up to 6 bits, string/bytes lengths 0..12, 252..257, 1000, 70000, nested and polymorphic objects, vectors, # fields with bit 31) must serialise to exactly the reference bytes and the reference bytes must parse back to the value consuming all bytes. BlockId/BlockIdExt conversions and hashing laws are checked on generated ids.',
+         'Trusts harness/ref/reftl.py (anchored on well-known constructor ids and the ids pinned in tests/test_tl.py), zlib.crc32. Excludes (listed in evidence) constructors with pseudo-types the generator does not implement and names declared differently in several bundled files.', '§6 C14'),
+})
 NOT_YET = {}
 
 def main():
